@@ -91,6 +91,7 @@ def parse(text):
 
 
 _REPARSER = {}
+_LONG = {}
 
 
 def reparse(printed):
@@ -247,12 +248,34 @@ def probe_event(t0, name, opt, rule, text=""):
             "a1": a1, "a2": a2, "found": found, "rindex": rindex, "first": first, "exc": exc, "subs": subs}
 
 
+# counts in the hundreds: many function calls / parenthesised groups / terms in ONE text, also as the result of one rewrite
+def big_count_prints():
+    out = []
+    for n in (60, 80, 130, 170):
+        body = " + ".join("sgn(x)" if k % 3 else "sgn(%d - y)" % k for k in range(n))
+        out += [body, ("(y + z) * (%s)" % body, "dist", ""), ("(%s) * 2z" % body, "dist", "")]
+        groups = " + ".join("(x - %d) * (y + %d)" % (k, k) for k in range(n // 2))
+        out += [groups, ("3 * (%s)" % groups, "dist", "")]
+    return out
+
+
 def print_event(text):
     """str(parse(text)) parsed back with the real parser"""
-    if common.pick(text, 40) == 0:
-        common.process_noise(common.pick(text, 997))
+    if common.pick(str(text), 40) == 0:
+        common.process_noise(common.pick(str(text), 997))
+    via = ""
+    if isinstance(text, (tuple, list)):
+        # (text, rule, option): the tree that is printed is what the rule makes of the ROOT of parse(text) - for trees too big to be
+        # sent through the step clauses (hundreds of nodes), whose printed form must still read back to the same expression
+        text, via, vopt = text
     try:
         t0 = parse(text)
+        if via:
+            rule = [r for n_, o_, r in rules(pos=False) if (n_, o_) == (via, vopt)][0]
+            if not rule.can_apply_to(t0):
+                return []
+            t0 = rule.apply_to(t0).result.get_root()
+            text = "%s  =[%s@root]=>" % (text if len(text) < 80 else text[:40] + "...(%d characters)" % len(text), via)
     except BaseException:  # noqa
         return []
     ev = {"typ": "print", "rule": "print", "opt": "", "text": text, "k": 0, "t": project.term(t0), "printed": "", "pc": [], "reparse": "-",
@@ -326,6 +349,7 @@ def _events_for_text(job):
     persistent = rules(pos=bool(common.pick(text, 2)))
     n = len(inorder(t0))
     firsts = []
+    kept = []
     for name, opt, rule in persistent:
         if want_probe:
             out.append(probe_event(t0, name, opt, rule, text))
@@ -336,6 +360,9 @@ def _events_for_text(job):
             out.append(ev)
             if result_root is not None and ev["outcome"] == "ok":
                 firsts.append((name, k, result_root, ev["printed"], opt))
+                if len(kept) < 12:
+                    ko = project.ObjTable()
+                    kept.append((name, k, result_root, ko, slim(project.snapshot(ko, [result_root]))))
             if want_probe and result_root is not None and ev["outcome"] == "ok":
                 try:
                     out.extend(reprobe_event(result_root, persistent, text, "%s@%d" % (name, k)))
@@ -398,6 +425,12 @@ def _events_for_text(job):
     if want_probe:
         try:
             out.extend(reprobe_event(t0.clone(), persistent, text, "start"))
+            # rule objects that live as long as the process and have been asked about thousands of other trees, most of them
+            # freed since (their addresses are reused)
+            if "rules" not in _LONG or _LONG["n"] > 2000:
+                _LONG["rules"], _LONG["n"] = rules(pos=False), 0
+            _LONG["n"] += 1
+            out.extend(reprobe_event(t0.clone(), _LONG["rules"], text, "long-lived"))
         except BaseException:  # noqa
             pass
     if second and firsts:
@@ -417,6 +450,14 @@ def _events_for_text(job):
                     if ev is not None:
                         ev["second"] = [text, name1, k1]
                         out.append(ev)
+    # results handed out earlier in this session are looked at again, after everything else that was done since
+    for name1, k1, root1, ko, before in kept:
+        try:
+            after = slim(project.snapshot(ko, []))
+        except BaseException:  # noqa
+            continue
+        if after != before:
+            out.append({"typ": "intact", "rule": name1, "opt": "", "text": text, "k": k1, "hb": before, "ha": after})
     if inplace2 and firsts:
         # a caller that keeps ONE tree: find_nodes() of every rule on it, a first step applied in place, then every rule at every node
         # of that very tree (clone_from_root of nodes that still carry the earlier bookkeeping)
